@@ -77,6 +77,7 @@ type VerifLSHResult struct {
 
 type VerifCloneResult struct {
 	Candidates []VerifFrag            `json:"candidates"`
+	Skeletons  map[string]*VerifSkel  `json:"skeletons"`
 	Frags      []VerifFrag            `json:"frags"`
 	Table      []VerifCell            `json:"table"`
 	ExhRaw     []VerifPair            `json:"exh_raw"`
@@ -120,24 +121,37 @@ func (c *verifCoder) codes(fs []string) []int {
 	return out
 }
 
-func verifCollectCandidates(cd *CloneDetector, node *parser.Node, file string, out *[]VerifFrag) {
+// VerifSkel is the statement skeleton of a parsed file: every node that is a fragment
+// candidate or has one below it, with its sub-nodes kept apart by the list of parser.Node
+// they stand in (Children, Body, Orelse, Handlers, Finalbody - every list ConvertAST puts
+// into the compared tree). It is built by a traversal of its own over all five lists and does
+// not use the production fragment walk; the model walk is evaluated on it.
+type VerifSkel struct {
+	Start int             `json:"s"`
+	End   int             `json:"e"`
+	Cand  bool            `json:"c"`
+	Lists [5][]*VerifSkel `json:"l"`
+}
+
+func verifSkeleton(cd *CloneDetector, node *parser.Node) *VerifSkel {
 	if node == nil {
-		return
+		return nil
 	}
-	if cd.isFragmentCandidate(node) {
-		loc := &CodeLocation{FilePath: file, StartLine: node.Location.StartLine, EndLine: node.Location.EndLine}
-		f := NewCodeFragment(loc, node, "")
-		*out = append(*out, VerifFrag{File: file, Start: loc.StartLine, End: loc.EndLine, Size: f.Size, Lines: f.LineCount, Kind: string(node.Type)})
+	sk := &VerifSkel{Start: node.Location.StartLine, End: node.Location.EndLine, Cand: cd.isFragmentCandidate(node)}
+	keep := sk.Cand
+	for k, list := range [5][]*parser.Node{node.Children, node.Body, node.Orelse, node.Handlers, node.Finalbody} {
+		sk.Lists[k] = []*VerifSkel{}
+		for _, c := range list {
+			if sub := verifSkeleton(cd, c); sub != nil {
+				sk.Lists[k] = append(sk.Lists[k], sub)
+				keep = true
+			}
+		}
 	}
-	for _, c := range node.Children {
-		verifCollectCandidates(cd, c, file, out)
+	if !keep {
+		return nil
 	}
-	for _, c := range node.Body {
-		verifCollectCandidates(cd, c, file, out)
-	}
-	for _, c := range node.Orelse {
-		verifCollectCandidates(cd, c, file, out)
-	}
+	return sk
 }
 
 func verifPairs(idx map[*CodeFragment]int, ps []*ClonePair) []VerifPair {
@@ -151,7 +165,7 @@ func verifPairs(idx map[*CodeFragment]int, ps []*ClonePair) []VerifPair {
 // VerifCloneRun runs the production pipeline pieces on the given sources.
 func VerifCloneRun(req *VerifCloneRequest) (*VerifCloneResult, error) {
 	ctx := context.Background()
-	res := &VerifCloneResult{Batched: map[string][]VerifPair{}}
+	res := &VerifCloneResult{Batched: map[string][]VerifPair{}, Skeletons: map[string]*VerifSkel{}}
 	newDetector := func(mod func(c *CloneDetectorConfig)) *CloneDetector {
 		c := req.Config
 		if mod != nil {
@@ -163,6 +177,7 @@ func VerifCloneRun(req *VerifCloneRequest) (*VerifCloneResult, error) {
 	res.UsesGate = cd.classifier != nil && cd.cloneDetectorConfig.EnableMultiDimensionalAnalysis
 
 	// ---- extraction (production ExtractFragments) + the unfiltered candidate list
+	cdAll := newDetector(func(c *CloneDetectorConfig) { c.MinNodes, c.MinLines = 0, 0 })
 	var frags []*CodeFragment
 	p := parser.New()
 	for _, f := range req.Files {
@@ -171,7 +186,12 @@ func VerifCloneRun(req *VerifCloneRequest) (*VerifCloneResult, error) {
 			res.ParseErrs = append(res.ParseErrs, f.Path)
 			continue
 		}
-		verifCollectCandidates(cd, pr.AST, f.Path, &res.Candidates)
+		// every fragment candidate in the order of the production walk: ExtractFragments without a minimum size
+		for _, c := range cdAll.ExtractFragments([]*parser.Node{pr.AST}, f.Path) {
+			res.Candidates = append(res.Candidates, VerifFrag{File: f.Path, Start: c.Location.StartLine, End: c.Location.EndLine,
+				Size: c.Size, Lines: c.LineCount, Kind: string(c.ASTNode.Type)})
+		}
+		res.Skeletons[f.Path] = verifSkeleton(cd, pr.AST)
 		frags = append(frags, cd.ExtractFragments([]*parser.Node{pr.AST}, f.Path)...)
 	}
 	idx := make(map[*CodeFragment]int, len(frags))
